@@ -117,6 +117,12 @@ def check(run, prog):
         ck.same("R3", prog.getter("Signal", "stop_time").where, f"{clsname}.stop_time without start", "is None iff start_time is None",
                 sn is NONE, found=repr(sn))
         _contains(ck, prog, ev, z, zn, prog.func("Signal.contains"), f"{clsname}.contains")
+    # ------------------------------------------------------------------ NT: the index may be made of NumPy integers
+    for clsname, fi_ in (("Signal", f_gi), ("RadioSignal", f_rgi)):
+        for label, mkidx in (("z[2:50:3]", lambda mk: SliceV(mk(2), mk(50), mk(3))), ("z[::4]", lambda mk: SliceV(NONE, NONE, mk(4))),
+                             ("z[-40:-2]", lambda mk: SliceV(mk(-40), mk(-2), NONE)), ("z[5:]", lambda mk: SliceV(mk(5), NONE, NONE))):
+            zc = make_signal(prog, clsname, n=64, nchan=3 if clsname != "Signal" else NCHAN)
+            ck.number_types("NT", fi_.where, f"{clsname}: {label}", lambda ev, mk, zc=zc, mkidx=mkidx: ev.getitem(zc, mkidx(mk), FR()))
     # reader siblings
     _reader_siblings(ck, prog)
 
